@@ -15,4 +15,5 @@ Spec == Init /\ [][Next]_<<b, ns>>
 F == File(IF b[1] = 1 THEN 2 ELSE 3, ns, b)
 Layout == Len(ns) = 3 => (WellFormed(F) /\ DataIsIdealLayout(F))
 Hash == Len(ns) = 3 => HashIsSource(F)
+Rows == Len(ns) = 3 => EdgeRows(F)
 =============================================================================
